@@ -5,6 +5,10 @@
                   | VTup [2; N; n|None]          parallelize(range(N), n)
               op  = VTup [0; m] coalesce | [1; m] repartition | [2; n; fcode] partitionBy
                   | [3] zipWithUniqueId | [4] mapPartitionsWithIndex(tag)
+     kind 4  pipeline with a transient task fault and at most one logging stage: as kind 0 with the ops
+              [5; c] map | [6; c] flatMap | [7; c] keyBy | [8] mapValues | [9] persist | [10] zipWithIndex
+              | [11; fi; where] faulty stage | [12] logging index tag (these ops are accepted in kind 0 too)
+              -> VTup [num_partitions; glom; indices; indices logged per attempt during the final job]
      kind 1  summary    [N; n|None]                 -> VList [VTup [count; first|None]] of parallelize(range(N), n)
      kind 2  hash       [key]                       -> VTup [portable_hash key; _hash key]
      kind 3  probe      [N; n; VList is]            -> VTup [n; VList [VTup [count_i; first_i|None]]]  (n > 1) *)
@@ -42,6 +46,32 @@ Definition dec_src (v : val) : option source :=
   | _ => None
   end.
 
+(* element-function libraries (Python twins in py/c07.py: MAPS, FLATMAPS, KEYBYS, mapValues) *)
+Definition gmap (code : Z) (v : val) : val :=
+  match code, v with
+  | 0, VTup [a; b] => VTup [b; a]
+  | 1, VTup [k; x] => VTup [VTup [k]; x]
+  | 2, VTup [VInt k; x] => VTup [VInt (k + 1); x]
+  | 3, x => VTup [x; x]
+  | _, _ => VNone
+  end.
+Definition gflat (code : Z) (v : val) : list val :=
+  match code, v with
+  | 0, VTup [a; b] => [VTup [a; b]; VTup [b; a]]
+  | 1, x => [x; x]
+  | _, _ => []
+  end.
+Definition gkey (code : Z) (e : val) : val :=
+  match code, e with
+  | 0, VTup [_; x] => VTup [x; e]
+  | 1, _ => VTup [VInt 0; e]
+  | 2, _ => VTup [e; e]
+  | 3, VInt z => VTup [VInt (z mod 3); e]
+  | _, _ => VNone
+  end.
+Definition gvalues (v : val) : val :=
+  match v with VTup [k; x] => VTup [k; VTup [x]] | _ => VNone end.
+
 Definition dec_op (v : val) : option op :=
   match v with
   | VTup [VInt 0; VInt m] => Some (OCoalesce m)
@@ -49,8 +79,50 @@ Definition dec_op (v : val) : option op :=
   | VTup [VInt 2; VInt n; VInt c] => if (0 <=? c) && (c <=? 6) then Some (OPartitionBy n (fz c)) else None
   | VTup [VInt 3] => Some OZipUid
   | VTup [VInt 4] => Some OTagIndex
+  | VTup [VInt 5; VInt c] => if (0 <=? c) && (c <=? 3) then Some (OMap (gmap c)) else None
+  | VTup [VInt 6; VInt c] => if (0 <=? c) && (c <=? 1) then Some (OFlatMap (gflat c)) else None
+  | VTup [VInt 7; VInt c] => if (0 <=? c) && (c <=? 3) then Some (OMap (gkey c)) else None
+  | VTup [VInt 8] => Some (OMap gvalues)
+  | VTup [VInt 9] => Some OPersist
+  | VTup [VInt 10] => Some OZipIndex
+  | VTup [VInt 11; VInt fi; VInt _] => Some (OFault fi)
+  | VTup [VInt 12] => Some OTagIndex        (* the same stage, with a Python function that logs its index argument *)
   | _ => None
   end.
+
+(* ops that run a job when they are applied (their input lineage is evaluated there) *)
+Definition materialising (v : val) : bool :=
+  match v with
+  | VTup (VInt c :: _) => (c =? 0) || (c =? 1) || (c =? 2) || (c =? 10)
+  | _ => false
+  end.
+
+(* the lazy stages evaluated by the final glom().collect(): everything after the last materialising op *)
+Fixpoint final_segment (ops : list val) : list val :=
+  match ops with
+  | [] => []
+  | o :: ops' =>
+      let rest := final_segment ops' in
+      if existsb materialising ops' then rest else if materialising o then ops' else o :: rest
+  end.
+
+Definition is_log (v : val) : bool := match v with VTup [VInt 12] => true | _ => false end.
+Fixpoint fault_of (ops : list val) : option Z :=
+  match ops with
+  | [] => None
+  | VTup [VInt 11; VInt fi; _] :: _ => Some fi
+  | _ :: ops' => fault_of ops'
+  end.
+
+(* indices logged by the logging stage during the final job: one entry per attempt of every task *)
+Definition attempt_log (ops : list val) (r : rdd) : list Z :=
+  let seg := final_segment ops in
+  if existsb is_log seg then
+    let plans := fun i => match fault_of seg with
+                          | Some fi => if i =? fi then [true] else []
+                          | None => [] end in
+    snd (run_job plans (fun _ p => p) r)
+  else [].
 
 Fixpoint dec_ops (l : list val) : option (list op) :=
   match l with
@@ -70,6 +142,15 @@ Definition run (c : val) : val :=
       match dec_src src, dec_ops ops with
       | Some s, Some os =>
           match run_pipeline s os with Ok r => enc_rdd r | Err e => VErr e end
+      | _, _ => VBad
+      end
+  | VTup [VInt 4; src; VList ops] =>
+      match dec_src src, dec_ops ops with
+      | Some s, Some os =>
+          match run_pipeline s os with
+          | Ok r => VTup [VInt (num_partitions r); vparts (glom r); vints (indices r); vints (attempt_log ops r)]
+          | Err e => VErr e
+          end
       | _, _ => VBad
       end
   | VTup [VInt 1; VInt N; n] =>
